@@ -311,8 +311,8 @@ theorem delete_sites_as_modelled :
 /-- the two signature decoders: reject below 65 bytes, map a recovery byte 27/28 to 0/1, hash their own prefix constant
 in front of the checkpoint, and compare the recovered address text with the registered one -/
 theorem sig_rules_as_modelled : sigRules = [
-    ⟨"EthAddressFromSignature", "65", ["27", "28"], "27", "signaturePrefix", "addr != ethAddress"⟩,
-    ⟨"TronAddressFromSignature", "65", ["27", "28"], "27", "tronSignaturePrefix", "addr != ethAddress"⟩] := by decide
+    ⟨"EthAddressFromSignature", "65", ["27", "28"], "27", "signaturePrefix", "addr != ethAddress", 65, [27, 28], 27⟩,
+    ⟨"TronAddressFromSignature", "65", ["27", "28"], "27", "tronSignaturePrefix", "addr != ethAddress", 65, [27, 28], 27⟩] := by decide
 
 /-- "submitted by that oracle's bridger", transaction level: the account that must have signed a transaction carrying a
 confirm message is the message's `bridger_address` (proto signer option, enforced by the SDK ante handler), and the
@@ -327,6 +327,44 @@ not deliverable as a transaction in this snapshot — it has no `UnpackInterface
 value and rejects.  If either fact changes this obligation stops checking and the harness's transaction stream shows
 whether a stranger's transaction can now store a confirmation. -/
 theorem msgconfirm_wrapper_latent : msgConfirmUnpacks = false ∧ wrapperGuards = ["if !ok"] := by decide
+
+/-! ## 5b. signature decoding with the constants of the source (curve recovery `ec` and hash `H` opaque) -/
+
+/-- a signature either decoder accepts has at least 65 bytes — whatever the curve recovery does -/
+theorem accepted_signature_at_least_65_bytes (r : SigRule) (hr : r ∈ sigRules) (H : List Nat → List Nat)
+    (ec : List Nat → List Nat → Option String) (digest sig : List Nat) (a : String)
+    (h : recoverVia r H ec digest sig = some a) : 65 ≤ sig.length := by
+  simp only [sigRules, List.mem_cons, List.mem_nil_iff, or_false] at hr
+  rcases hr with rfl | rfl <;>
+  · simp only [recoverVia, decodeSig] at h
+    split at h
+    · cases h
+    · rename_i s' hs
+      split at hs
+      · cases hs
+      · omega
+
+/-- the recovery byte 27 / 28 (the contract's convention) is reduced to 0 / 1 before the curve recovery sees it, every
+other byte of the signature is untouched, and any other recovery byte is passed on as it is -/
+theorem recovery_byte_normalised (r : SigRule) (hr : r ∈ sigRules) (sig : List Nat) (hl : 65 ≤ sig.length) :
+    decodeSig r sig = some (if sig.getD 64 0 = 27 ∨ sig.getD 64 0 = 28 then sig.set 64 (sig.getD 64 0 - 27) else sig) := by
+  simp only [sigRules, List.mem_cons, List.mem_nil_iff, or_false] at hr
+  rcases hr with rfl | rfl <;>
+  · simp only [decodeSig, show ¬ sig.length < 65 from by omega, if_false]
+    simp
+
+/-- the two decoders differ in nothing but the prefix constant they hash in front of the checkpoint, and the prefixes
+differ: an eth-style signature over a checkpoint is a signature over another message than the tron one -/
+theorem decoders_differ_only_in_prefix :
+    sigRules.map (fun r => (r.minLenN, r.vNormN, r.vSubN, r.cmp)) = [(65, [27, 28], 27, "addr != ethAddress"), (65, [27, 28], 27, "addr != ethAddress")] ∧
+    sigRules.map prefixOf = [goSignPrefix, tronSignPrefix] ∧ goSignPrefix ≠ tronSignPrefix := by decide
+
+/-- so, in every reachable state of a chain whose handler recovers through either decoder: every STORED confirmation's
+signature has at least 65 bytes -/
+theorem stored_confirm_signature_length (r : SigRule) (hr : r ∈ sigRules) (H : List Nat → List Nat)
+    (ec : List Nat → List Nat → Option String) (ops : List Op) (e : Entry)
+    (he : e ∈ (run (recoverVia r H ec) {} ops).confirms) : 65 ≤ e.sig.length :=
+  accepted_signature_at_least_65_bytes r hr H ec e.digest e.sig e.external (stored_confirm_verified _ ops e he).2.2.1
 
 /-! ## 6. end to end: a stored confirmation is a signature over the digest the contract recomputes for the object it
 names, and over no other object, nonce or chain id -/
